@@ -61,7 +61,9 @@ pub struct Std {
 
 /// entries i = 0..n: even -> FirstVariant (a content), odd -> SecondVariant.
 /// Contents go round-robin to the main content pack (id 1) and the `extra` packs (ids 2..).
-pub fn std_container(out: &str, pkg: &str, comp: &str, n: u32, extra: u32, seed: u64) -> Result<Std, String> {
+/// `idgap`: the extra packs get ids 2 + idgap + k (pack ids need not be contiguous).
+/// `cmax` > 0 caps the content sizes (length % (cmax + 1)): many contents in a small file.
+pub fn std_container(out: &str, pkg: &str, comp: &str, n: u32, extra: u32, seed: u64, idgap: u32, cmax: usize, orphans: u32) -> Result<Std, String> {
     let mut creator = BasicCreator::new(out, concat_mode(pkg), VENDOR, compression(comp), Arc::new(()))
         .map_err(|e| format!("{e}"))?;
     let dir = std::path::Path::new(out).parent().unwrap().to_path_buf();
@@ -72,7 +74,7 @@ pub fn std_container(out: &str, pkg: &str, comp: &str, n: u32, extra: u32, seed:
         let p = dir.join(format!("{stem}.extra{k}.jbkc"));
         let ps = p.to_str().unwrap().to_string();
         let f: Box<dyn jbk::creator::PackRecipient> = jbk::creator::AtomicOutFile::new(&ps).map_err(|e| format!("{e}"))?;
-        let c = ContentPackCreator::new_from_output(f, jbk::PackId::from((2 + k) as u16), VENDOR, Default::default(), compression(comp))
+        let c = ContentPackCreator::new_from_output(f, jbk::PackId::from((2 + idgap + k) as u16), VENDOR, Default::default(), compression(comp))
             .map_err(|e| format!("{e}"))?;
         extras.push(c);
         extra_paths.push(ps);
@@ -91,10 +93,16 @@ pub fn std_container(out: &str, pkg: &str, comp: &str, n: u32, extra: u32, seed:
     );
     let mut entry_store = Box::new(jbk::creator::EntryStore::new(sch, None));
     let mut contents = vec![];
+    // `orphans` tiny contents that no entry refers to: they only make the tables of the content pack big
+    for k in 0..orphans {
+        let data = gen(3, seed + 7000 + k as u64, "r");
+        creator.add_content(Box::new(std::io::Cursor::new(data)), CompHint::Detect).map_err(|e| format!("{e}"))?;
+    }
     for i in 0..n {
         let name = format!("name{}-{}", i, seed % 97).into_bytes();
         if i % 2 == 0 {
             let len = [0usize, 5, 52, 300, 1000, 4100][(i as usize / 2 + seed as usize) % 6];
+            let len = if cmax > 0 { len % (cmax + 1) } else { len };
             let data = gen(len, seed + i as u64, if i % 4 == 0 { "t" } else { "r" });
             let slot = (i / 2) % (1 + extra);
             let rdr = Box::new(std::io::Cursor::new(data.clone()));
